@@ -387,6 +387,30 @@ def unit_purity(unit):
     agg = Agg()
     ds = [d for d in all_derivations(kind, form, ykind) if only is None or d[0] == only]
     ws = writes(form)
+    # ---- write isolation: an in-place write (values or name) through one scenario object shows in that object, in the table it
+    # is a live column of - and nowhere else (the vector a table was built FROM, a sibling column, a row taken earlier ...)
+    if (only is None or only.startswith("(write)")) and ykind is None:
+        allowed = {"vector": {"x"}, "rewritten": {"x"}, "donor": {"x"}, "view": {"x", "parent"}, "table": {"x", "col-view"}, "row": {"parent"}}[form]
+        for wl, wf in ws:
+            if only is not None and only != "(write) " + wl:
+                continue
+            sc = Scenario(kind, form, ykind)
+            before = sc.snapshot()
+            agg.evals += 1; agg.states += 1; agg.transitions += 1; agg.compared += len(before)
+            try:
+                wf(sc)
+            except Exception:
+                agg.outcomes["write-refused"] += 1
+                continue
+            after = sc.snapshot()
+            ok_here = {"built"} if wl.startswith("built") else allowed
+            leaked = [k for k in before if before[k] != after[k] and k not in ok_here]
+            agg.nontrivial += 1
+            if leaked:
+                agg.violation(V(f"write.{form}", "write-shows-in-" + leaked[0].split("-")[0], {"operand": kind, "form": form, "second_operand": None, "derivation": "(write) " + wl, "changed": leaked},
+                                _brief(before[leaked[0]]), _brief(after[leaked[0]])))
+            else:
+                agg.outcomes["write-stays-local"] += 1
     for label, fn, live in ds:
         case = {"operand": kind, "form": form, "second_operand": ykind, "derivation": label}
         # ---- purity
@@ -515,4 +539,9 @@ def plan(level_full_kinds, all_kinds=None):
         for yk in ("int", "float?", "str?", "date", "datetime", "complex", "bool", "table"):
             for form in ("vector", "view", "table", "row"):
                 units.append(("purity", kind, form, yk, "full" if kind in level_full_kinds and yk in ("int", "float?", "table") else "pure"))
+    # operands with a HISTORY against a typed second operand (all-None vector that received a value, nullable flag left behind, zero rows)
+    for kind in ("allnone", "int?", "empty", "object"):
+        for yk in ("int", "str?", "float?"):
+            for form in ("rewritten", "vector"):
+                units.append(("purity", kind, form, yk, "pure"))
     return units
